@@ -514,4 +514,74 @@ MUTANTS = {
         checks=["C04"],
         edits=[(P, "            if typedef_namespace:\n                if is_typedef:\n                    self._add_typedef_name(fixed_decl.name, fixed_decl.coord)\n                else:\n                    self._add_identifier(fixed_decl.name, fixed_decl.coord)", "            if typedef_namespace:\n                if is_typedef:\n                    self._add_typedef_name(fixed_decl.name, fixed_decl.coord)\n                elif decl.get(\"init\") is None or not self._is_type_in_scope(fixed_decl.name):\n                    self._add_identifier(fixed_decl.name, fixed_decl.coord)")],
     ),
+    "C01-alignof-first-set": dict(
+        what="_Alignof dropped from the set of tokens that can start an expression",
+        checks=["C01"],
+        edits=[(P, '    "SIZEOF",\n    "_ALIGNOF",\n    "OFFSETOF",', '    "SIZEOF",\n    "OFFSETOF",')],
+    ),
+    "C01-enum-trailing-comma": dict(
+        what="a trailing comma in an enumerator list is rejected",
+        checks=["C01"],
+        edits=[(P, "        while self._accept(\"COMMA\"):\n            if self._peek_type() == \"RBRACE\":\n                break\n            enum = self._parse_enumerator()", "        while self._accept(\"COMMA\"):\n            enum = self._parse_enumerator()")],
+    ),
+    "C01-member-typeid": dict(
+        what="a member name spelled like a typedef name is rejected after '.' / '->'",
+        checks=["C01"],
+        edits=[(P, '                if name_tok.type not in {"ID", "TYPEID"}:\n                    self._parse_error(\n                        "Invalid struct reference"', '                if name_tok.type not in {"ID"}:\n                    self._parse_error(\n                        "Invalid struct reference"')],
+    ),
+    "C01-knr-branch": dict(
+        what="K&R parameter declarations between declarator and body are no longer accepted",
+        checks=["C01"],
+        edits=[(P, "        if self._peek_type() == \"LBRACE\" or self._starts_declaration():\n            param_decls = None\n            if self._starts_declaration():", "        if self._peek_type() == \"LBRACE\":\n            param_decls = None\n            if self._starts_declaration():")],
+    ),
+    "C01-static-in-array-param": dict(
+        what="'static' inside an array declarator after qualifiers ([const static n]) is rejected",
+        checks=["C01"],
+        edits=[(P, "            if self._accept(\"STATIC\"):\n                dim_quals = dim_quals + [\"static\"]", "            if False and self._accept(\"STATIC\"):\n                dim_quals = dim_quals + [\"static\"]")],
+    ),
+    "C01-for-decl-storage": dict(
+        what="a for-init declaration starting with a storage class (register/auto) is not recognised",
+        checks=["C01"],
+        edits=[(P, "                if self._starts_declaration():\n                    decls = self._parse_declaration()\n                    init = c_ast.DeclList", "                if self._starts_declaration() and self._peek_type() not in {\"REGISTER\", \"AUTO\"}:\n                    decls = self._parse_declaration()\n                    init = c_ast.DeclList")],
+    ),
+    "C08-bitsize-zero": dict(
+        what="CGenerator drops a bit-field width of 0",
+        checks=["C08"],
+        edits=[(G, "        if n.bitsize:\n            s += \" : \" + self.visit(n.bitsize)", "        if n.bitsize and self.visit(n.bitsize) != \"0\":\n            s += \" : \" + self.visit(n.bitsize)")],
+    ),
+    "C08-funcspec-dropped": dict(
+        what="CGenerator drops function specifiers (inline, _Noreturn)",
+        checks=["C08"],
+        edits=[(G, "        if n.funcspec:\n            s = \" \".join(n.funcspec) + \" \"", "        if n.funcspec and False:\n            s = \" \".join(n.funcspec) + \" \"")],
+    ),
+    "C08-dimquals-dropped": dict(
+        what="CGenerator drops qualifiers/static inside array declarators",
+        checks=["C08"],
+        edits=[(G, "                            if modifier.dim_quals:\n                                nstr += \" \".join(modifier.dim_quals) + \" \"", "                            if modifier.dim_quals and False:\n                                nstr += \" \".join(modifier.dim_quals) + \" \"")],
+    ),
+    "C08-ellipsis-dropped": dict(
+        what="CGenerator prints nothing for '...'",
+        checks=["C08"],
+        edits=[(G, "    def visit_EllipsisParam(self, n: c_ast.EllipsisParam) -> str:\n        return \"...\"", "    def visit_EllipsisParam(self, n: c_ast.EllipsisParam) -> str:\n        return \"\"")],
+    ),
+    "C08-enum-values-dropped": dict(
+        what="CGenerator omits explicit enumerator values",
+        checks=["C08"],
+        edits=[(G, "        if not n.value:\n            return", "        if True:\n            return")],
+    ),
+    "C08-reduce-parens-right-assoc": dict(
+        what="reduce_parentheses drops parentheses around a right operand of equal precedence (a - (b - c))",
+        checks=["C08", "C07"],
+        edits=[(G, "                    and self.precedence_map[d.op] > self.precedence_map[n.op]", "                    and self.precedence_map[d.op] >= self.precedence_map[n.op]")],
+    ),
+    "C08-volatile-ptr-qual": dict(
+        what="CGenerator drops qualifiers of pointer declarators",
+        checks=["C08"],
+        edits=[(G, "                            if modifier.quals:\n                                quals = \" \".join(modifier.quals)", "                            if modifier.quals and modifier.quals != [\"volatile\"]:\n                                quals = \" \".join(modifier.quals)")],
+    ),
+    "C08-unsigned-char-order": dict(
+        what="CGenerator sorts the words of a type specifier (unsigned char -> char unsigned: harmless) but drops duplicates (long long -> long)",
+        checks=["C08"],
+        edits=[(G, "    def visit_IdentifierType(self, n: c_ast.IdentifierType) -> str:\n        return \" \".join(n.names)", "    def visit_IdentifierType(self, n: c_ast.IdentifierType) -> str:\n        return \" \".join(dict.fromkeys(n.names))")],
+    ),
 }
